@@ -13,6 +13,13 @@ use serde_json::json;
 
 /// conforming baseline: HBFs of `pages` data pages + stop page
 pub fn baseline(n_hbf: usize, pages: usize) -> Vec<Rdh> {
+    baseline_v(n_hbf, pages, 7)
+}
+
+/// header versions the enumerated phases use as "first version seen" (the tool accepts 3..=100)
+const BASE_VERSIONS: [u8; 4] = [7, 6, 3, 100];
+
+pub fn baseline_v(n_hbf: usize, pages: usize, version: u8) -> Vec<Rdh> {
     let mut v = vec![];
     let mut orbit = 1000u32;
     for _ in 0..n_hbf {
@@ -25,6 +32,7 @@ pub fn baseline(n_hbf: usize, pages: usize) -> Vec<Rdh> {
                 pages_counter: p as u16,
                 stop_bit: (p == pages) as u8,
                 bc_word: 0x123,
+                version,
                 ..Rdh::default()
             });
         }
@@ -77,7 +85,8 @@ fn bitflip_case(i: u64, w: &Worker) -> CaseResult {
     let bit = (i % 512) as usize;
     let pos_kind = (i / 512) % 3;
     let its = (i / 1536) % 2 == 1;
-    let mut seq = baseline(3, 2);
+    let base_version = BASE_VERSIONS[((i / 3072) % 4) as usize];
+    let mut seq = baseline_v(3, 2, base_version);
     let pos = match pos_kind {
         0 => 0,
         1 => 1,
@@ -91,6 +100,7 @@ fn bitflip_case(i: u64, w: &Worker) -> CaseResult {
     out.nontrivial = true;
     out.fingerprint = i;
     out.labels.push(format!("bitflip:E10={} E11={}", n10.min(1), n11.min(1)));
+    out.labels.push(format!("base_version:{base_version}"));
     if w.take_sample() {
         out.sample = Some(json!({"kind": "bitflip", "bit": bit, "packet": pos, "its_target": its, "e10": n10, "e11": n11}));
     }
@@ -114,7 +124,7 @@ fn boundary_case(i: u64, w: &Worker) -> CaseResult {
         ("cru_id", vec![0, 0xFFF], |r, v| r.cruid_dw = (r.cruid_dw & 0xF000) | v as u16),
         ("trigger", vec![0, 1, 1 << 14, 1 << 15, 1 << 20, 1 << 26, 1 << 27, 1 << 31, 0xFFFF_FFFF], |r, v| r.trigger_type = v),
         ("detector", vec![0, 0xFFF, 1 << 11, 1 << 12, 1 << 23, 1 << 24, 0xFF00_0FFF], |r, v| r.detector_field = v),
-        ("version", vec![5, 6, 7, 8], |r, v| r.version = v as u8),
+        ("version", vec![2, 5, 6, 7, 8, 101], |r, v| r.version = v as u8),
         ("header_size", vec![0x3F, 0x40, 0x41], |r, v| r.header_size = v as u8),
         ("priority", vec![0, 1, 255], |r, v| r.priority = v as u8),
         ("system_id", vec![0x1F, 0x20, 0x21], |r, v| r.system_id = v as u8),
@@ -133,6 +143,7 @@ fn boundary_case(i: u64, w: &Worker) -> CaseResult {
     let k = (i as usize) % total;
     let pos_kind = (i as usize / total) % 4;
     let its = (i as usize / (total * 4)) % 2 == 1;
+    let base_version = BASE_VERSIONS[(i as usize / (total * 8)) % 4];
     let mut acc = 0;
     let mut chosen = None;
     for (name, vals, set) in &fields {
@@ -143,7 +154,7 @@ fn boundary_case(i: u64, w: &Worker) -> CaseResult {
         acc += vals.len();
     }
     let (name, val, set) = chosen.unwrap();
-    let mut seq = baseline(3, 2);
+    let mut seq = baseline_v(3, 2, base_version);
     let pos = [0usize, 1, 2, 5][pos_kind];
     set(&mut seq[pos], val);
     let (n10, n11, _) = check_sequence(&seq, its, &format!("{name}={val:#x} at packet {pos}"))?;
@@ -151,6 +162,7 @@ fn boundary_case(i: u64, w: &Worker) -> CaseResult {
     out.nontrivial = true;
     out.fingerprint = i;
     out.labels.push(format!("boundary:{name}"));
+    out.labels.push(format!("base_version:{base_version}"));
     if w.take_sample() {
         out.sample = Some(json!({"kind": "boundary", "field": name, "value": val, "packet": pos, "its_target": its, "e10": n10, "e11": n11}));
     }
@@ -173,6 +185,13 @@ pub fn gen_walk(t: &mut Tape, max_len: usize) -> Vec<Rdh> {
     let mut trg = 0x6A03u32;
     let fee = fee_id(t.below(7) as u8, t.below(4) as u8, t.below(48) as u8);
     let mut new_hbf = true;
+    // the version every RDH is judged against is the one of the first RDH: mostly 7, often 6, sometimes any accepted value
+    let base_version = match t.below(8) {
+        0..=3 => 7u8,
+        4 | 5 => 6,
+        6 => *t.pick(&[3u8, 4, 5, 8, 100]),
+        _ => 3 + t.below(98) as u8,
+    };
     for i in 0..n {
         if new_hbf {
             orbit = orbit.wrapping_add(1 + t.below(3) as u32);
@@ -193,6 +212,7 @@ pub fn gen_walk(t: &mut Tape, max_len: usize) -> Vec<Rdh> {
             trigger_type: trg,
             bc_word: t.below(0xDEC) as u32,
             detector_field: if t.chance(1, 4) { t.u32() & 0xFFF } else { 0 },
+            version: base_version,
             ..Rdh::default()
         };
         if stop {
@@ -213,8 +233,8 @@ pub fn gen_walk(t: &mut Tape, max_len: usize) -> Vec<Rdh> {
                 7 => r.bc_word = *t.pick(&[0xDEBu32, 0xDEC, 0xFFF, 0x1DEB]),
                 8 => r.trigger_type = *t.pick(&[0u32, 1 << 15, 1 << 26]),
                 9 => r.detector_field = 1 << (12 + t.below(12)),
-                10 => r.version ^= 1,
-                11 => r.format_word = *t.pick(&[0u64, 2, 3, 0x100]),
+                10 => r.version = *t.pick(&[r.version ^ 1, 7, 6, r.version.wrapping_add(1)]),
+                11 => r.format_word = *t.pick(&[0u64, 1, 2, 3, 0xFF, 0x100]),
                 // only a violation when an ITS target is selected
                 _ => r.system_id = *t.pick(&[0x21u8, 0x1F, 0x00, 0xFF, 0x22]),
             }
@@ -238,6 +258,7 @@ fn walk_case(t: &mut Tape, w: &Worker) -> CaseResult {
     out.fingerprint = fnv64(&seq.iter().flat_map(|r| r.encode().to_vec()).collect::<Vec<u8>>());
     out.labels.push(format!("walk_len:{}", if seq.len() < 50 { "<50" } else if seq.len() < 500 { "50-499" } else { ">=500" }));
     out.labels.push(format!("e11_fraction:{}", if n11 == 0 { "0".to_string() } else { format!("{}0%", (n11 * 10 / seq.len()).min(9)) }));
+    out.labels.push(format!("first_version:{}", match seq[0].version { 7 => "7", 6 => "6", _ => "other" }));
     if n10 > 0 {
         out.labels.push("has_e10".into());
     }
@@ -333,17 +354,17 @@ pub fn build() -> Property {
         id: "C10",
         rule: "Reference = the lists of doc/checks_list.md applied to the raw 64 bytes (sanity, relative to the first header version seen on the link, + system id 0x20 for ITS targets) and the documented running automaton \
                (expected page counter, reset on stop, orbit must change after stop, orbit/trigger/FEE constancy on page != 0; set-valued after a stop bit > 1 where the document is silent). \
-               (1) exhaustive: every one of the 512 header bits flipped at the first / second / a later packet of a conforming HBF sequence, with and without ITS specialisation; \
+               (1) exhaustive: every one of the 512 header bits flipped at the first / second / a later packet of a conforming HBF sequence, with and without ITS specialisation, for streams whose first header version is 7, 6, 3 or 100; \
                (2) every field at its boundary set (BC DEA/DEB/DEC, stave 46/47/48, layer 6/7, stop 0/1/2, format 2/3, DW 1/2, each spare trigger bit, detector bits 11/12/23/24, version +-1, reserved words) at four positions; \
-               (3) proptest random walks of 2..5000 RDHs starting at an HBF start with mutation rates 0..50 %; (4) walks through the CLI (`check sanity`, `check all`, `check sanity its`; file and stdin ; a third with a custom-checks file that configures the first RDH's own version) reading E10/E11 and their offsets. \
+               (3) proptest random walks of 2..5000 RDHs starting at an HBF start with mutation rates 0..50 %, first header version 7 (half), 6 (quarter) or any accepted value 3..=100; (4) walks through the CLI (`check sanity`, `check all`, `check sanity its`; file and stdin ; a third with a custom-checks file that configures the first RDH's own version) reading E10/E11 and their offsets. \
                Oracle: E10 at RDH i <=> reference sanity fails; E11 at RDH i <=> automaton (modulo `unspecified`); both at RDH i's offset; E11 never in sanity modes. Non-trivial walk = both verdicts occur.",
         assumptions: vec![
             "BC bound is > 0xDEB (the orbit has 3564 bunch crossings; the property's boundary set says the same; the document's `<` is read as `<=`)".into(),
             "sequences begin at an HBF start (first two pages 0 and 1), as the property's quantifier says".into(),
         ],
         phases: vec![
-            Phase { name: "bitflips_exhaustive", kind: PhaseKind::Enum { n: (512 * 3 * 2, 512 * 3 * 2), exhaustive: (true, true), f: Box::new(bitflip_case) }, threads: 16 },
-            Phase { name: "boundaries", kind: PhaseKind::Enum { n: (93 * 4 * 2, 93 * 4 * 2), exhaustive: (true, true), f: Box::new(boundary_case) }, threads: 16 },
+            Phase { name: "bitflips_exhaustive", kind: PhaseKind::Enum { n: (512 * 3 * 2 * 4, 512 * 3 * 2 * 4), exhaustive: (true, true), f: Box::new(bitflip_case) }, threads: 16 },
+            Phase { name: "boundaries", kind: PhaseKind::Enum { n: (95 * 4 * 2 * 4, 95 * 4 * 2 * 4), exhaustive: (true, true), f: Box::new(boundary_case) }, threads: 16 },
             Phase { name: "random_walks", kind: PhaseKind::Gen { cases: (30000, 400000), tape_len: 24000, f: Box::new(walk_case) }, threads: 16 },
             Phase { name: "cli_walks", kind: PhaseKind::Gen { cases: (3000, 20000), tape_len: 3000, f: Box::new(cli_case) }, threads: 16 },
         ],
